@@ -32,18 +32,18 @@ impl Cfg {
     fn ts(&self) -> TimeScale {
         TimeScale::new(self.cycle, self.delay, self.rep.to_mina(), self.rev)
     }
-    fn probe(&self) -> <S1 as Shape>::Tl {
-        S1::build_tl(&TlSpec {
-            cycle: self.cycle,
-            delay: self.delay,
-            repeat: self.rep,
-            reverse: self.rev,
-            default_easing: None,
-            kfs: vec![
-                KfSpec { pos: 0.0, vals: vec![Some(0.0)], easing: None },
-                KfSpec { pos: 1.0, vals: vec![Some(1.0)], easing: None },
-            ],
-        })
+    /// Two linear probes whose value equals the position bit for bit: one with keyframes at 0 % and
+    /// 100 %, one without a 0 % keyframe (implicit default 0.0 at 0 %, then 50 % -> 0.5, 100 % -> 1.0; every
+    /// step of that interpolation is exact), so that the position the keyframe lookup works with is seen
+    /// also while the first keyframe is not at 0 %.
+    fn probe(&self) -> [<S1 as Shape>::Tl; 2] {
+        let mk = |kfs: Vec<KfSpec>| {
+            S1::build_tl(&TlSpec { cycle: self.cycle, delay: self.delay, repeat: self.rep, reverse: self.rev, default_easing: None, kfs })
+        };
+        [
+            mk(vec![KfSpec { pos: 0.0, vals: vec![Some(0.0)], easing: None }, KfSpec { pos: 1.0, vals: vec![Some(1.0)], easing: None }]),
+            mk(vec![KfSpec { pos: 0.5, vals: vec![Some(0.5)], easing: None }, KfSpec { pos: 1.0, vals: vec![Some(1.0)], easing: None }]),
+        ]
     }
     fn total(&self) -> f64 {
         match self.rep.cycles() {
@@ -75,7 +75,7 @@ fn check_one(
     cfg: &Cfg,
     ci: usize,
     ts: &TimeScale,
-    probe: Option<&<S1 as Shape>::Tl>,
+    probe: Option<&[<S1 as Shape>::Tl; 2]>,
     t: f32,
     acc: &mut Acc,
     stream: u64,
@@ -201,14 +201,20 @@ fn check_one(
         }
     }
     // public route: a linear 0->1 probe property shows exactly the position
-    if let Some(tl) = probe {
-        let mut v = S1 { x: 0.5 };
+    for (pi, tl) in probe.into_iter().flatten().enumerate() {
+        let mut v = S1 { x: 0.25 };
         tl.update(&mut v, t);
         acc.eval();
         if !same_f32(v.x, o.pos) {
             acc.violation(
                 "c03:route",
-                format!("Timeline::update of a linear 0->1 probe gives {} but the time scale position is {} at t={t} for {:?}", v.x, o.pos, cfg),
+                format!(
+                    "Timeline::update of a linear 0->1 probe ({}) gives {} but the time scale position is {} at t={t} for {:?}",
+                    if pi == 0 { "keyframes 0%,100%" } else { "keyframes 50%,100%, none at 0%" },
+                    v.x,
+                    o.pos,
+                    cfg
+                ),
                 case("update-route"),
             );
         }
@@ -363,7 +369,7 @@ pub fn run(run: &mut Run) {
         if rc.is_some() && rc != Some((STREAM_META, ci as u64)) {
             continue;
         }
-        let tl = cfg.probe();
+        let [tl, _] = cfg.probe();
         let case = |what: &str| case_json(STREAM_META, ci as u64, vec![("config", cfg.json()), ("clause", J::s(what))]);
         run.acc.eval();
         let want_total = cfg.delay as f64 + cfg.total();
@@ -485,11 +491,17 @@ pub fn run(run: &mut Run) {
                     }
                 }
                 if j % 16 == 0 {
-                    let mut v = S1 { x: 0.5 };
-                    probe.update(&mut v, t);
-                    acc.eval();
-                    if v.x as f64 != m.p {
-                        acc.violation("c03:grid-route", format!("update of linear probe gives {} at t={t}, model position {} for {:?}", v.x, m.p, cfg), case(t, "update-route"));
+                    for (pi, probe) in probe.iter().enumerate() {
+                        let mut v = S1 { x: 0.25 };
+                        probe.update(&mut v, t);
+                        acc.eval();
+                        if v.x as f64 != m.p {
+                            acc.violation(
+                                "c03:grid-route",
+                                format!("update of linear probe #{pi} gives {} at t={t}, model position {} for {:?}", v.x, m.p, cfg),
+                                case(t, "update-route"),
+                            );
+                        }
                     }
                 }
             }
